@@ -11,12 +11,19 @@ REGS = "aZ9-_~!;"
 HX = "09afAF"
 SCHEMES = ["gemini://", "GEMINI://", "Gemini://"]
 PORTS = ["", ":1965", ":", ":7", ":0", ":65535", ":01965"]
+PORT_VALUE = [1965, 1965, 1965, 7, 0, 65535, 1965]      # what the caller asked for, known by construction
 V6 = ["[2001:db8::%s]", "[::%s]", "[fe80::%s%%25eth0]", "[::ffff:192.0.2.%s]", "[FE80::%s%%25Eth0]"]
 
 
-def _same(u):
-    """The property for one accepted URL u."""
+def _same(u, port=None, host=None):
+    """The property for one accepted URL u (``port`` / ``host``: what the caller asked for, where the
+    harness knows it by construction -- comparing parse(u) with parse(normalize(u)) alone would let a
+    parser that is wrong in the same way on both sides pass)."""
     p = parse_url(u)
+    if port is not None and p.port != port:
+        return False
+    if host is not None and p.hostname != host:
+        return False
     n = p.normalized
     q = parse_url(n)                      # normal form must itself be accepted
     if not (q.hostname == p.hostname and q.port == p.port and q.path == p.path and q.query == p.query):
@@ -43,7 +50,7 @@ def norm_host(sk: int, pk: int, a: int, shape: int) -> bool:
         parse_url(u)
     except ValueError:
         return True                       # not an accepted URL: outside the property
-    return V(_same(u))
+    return V(_same(u, PORT_VALUE[pk], host.lower()))
 
 
 def norm_pcthost(sk: int, pk: int, hx: int, shape: int) -> bool:
@@ -63,7 +70,7 @@ def norm_pcthost(sk: int, pk: int, hx: int, shape: int) -> bool:
 
 def norm_path(pk: int, c: int, shape: int) -> bool:
     """
-    pre: 0 <= pk < 3 and 0 <= shape < 5
+    pre: 0 <= pk < 7 and 0 <= shape < 5
     pre: is_pchar(c)
     post: _
     """
@@ -74,7 +81,7 @@ def norm_path(pk: int, c: int, shape: int) -> bool:
         parse_url(u)
     except ValueError:
         return True
-    return V(_same(u))
+    return V(_same(u, PORT_VALUE[pk], "h"))
 
 
 def norm_path2(pk: int, c: int, d: int, shape: int) -> bool:
@@ -110,7 +117,8 @@ def norm_query(a: int, b: int, shape: int) -> bool:
 
 def norm_v6(vk: int, d: int, pk: int, shape: int) -> bool:
     """
-    pre: 0 <= vk < 5 and 0 <= d < 6 and 0 <= pk < 4 and 0 <= shape < 3
+    pre: 0 <= vk < 5 and 0 <= d < 6 and 0 <= pk < 7 and 0 <= shape < 3
+    pre: pk <= 4 or shape == 0
     post: _
     """
     digit = HX[d]
@@ -122,7 +130,7 @@ def norm_v6(vk: int, d: int, pk: int, shape: int) -> bool:
         parse_url(u)
     except ValueError:
         return True
-    return V(_same(u))
+    return V(_same(u, PORT_VALUE[pk]))
 
 
 def accepts_v6(vk: int, d: int) -> bool:
